@@ -165,6 +165,14 @@ def obligations(tier, rng):
             for sched in schedules([n]):
                 out.append(ob('C05', 'chunk', 'F2/%s/n=%d/%s' % (text(f), n, _sname(sched)), f=f, ns=[n], sched=sched,
                               oracle='offline', max_paths=20000, wall=900))
+    # a binary stateful operation whose operand is read again by a sibling (the operand list is shared): every chunking of 2+2 (3+2) samples
+    GXc, GYc = ('geq', X, ('const', 0.0)), ('geq', Y, ('const', 0.0))
+    for f in [('or', ('since', X, Y), ('historically', X)), ('and', ('since', GXc, GYc), ('once', GXc)), ('or', ('historically', Y), ('since', X, Y)),
+              ('and', ('and', X, Y), ('once', X)), ('or', ('sub', X, Y), ('historically', Y))]:
+        for ns in ([[2, 2]] if quick else [[2, 2], [3, 2]]):
+            sch = schedules(ns)
+            for sched in ([sch[0], sch[-1], sch[len(sch) // 2]] if quick else sch):
+                out.append(ob('C05', 'chunk', 'sibling/%s/n=%s/%s' % (text(f), ns, _sname(sched)), f=f, ns=ns, sched=sched, oracle='offline', max_paths=60000, wall=1500))
     # all depth-2 nestings of the unary online operators over one variable (relational: real offline evaluator)
     un1 = [lambda g: ('not', g), lambda g: ('abs', g), lambda g: ('once', g), lambda g: ('historically', g),
            lambda g: ('once_t', g, 0, 1), lambda g: ('historically_t', g, 1, 2), lambda g: ('geq', g, ('const', 0.5))]
